@@ -8,6 +8,8 @@ import (
 	"os"
 	"sort"
 	"strings"
+	"sync"
+	"time"
 
 	"github.com/MichaelMure/git-bug/cache"
 	"github.com/MichaelMure/git-bug/entities/bug"
@@ -80,6 +82,9 @@ type env struct {
 }
 
 // RunOne executes scenario s once along the given choice prefix.
+// FreeRunning switches RunOne to plain goroutines without the scheduler (race-detector pass).
+var FreeRunning bool
+
 func RunOne(s Scenario, prefix []int, preempt bool, recordSites bool) (res Result, err error) {
 	dir, err := os.MkdirTemp(world.ScratchRoot(), "c18")
 	if err != nil {
@@ -150,19 +155,42 @@ func RunOne(s Scenario, prefix []int, preempt bool, recordSites bool) (res Resul
 	}
 
 	// ---- controlled phase
-	sched := vsync.NewSched(prefix, 20000, recordSites)
 	issued := make([][]Issued, len(s.Threads))
-	for i, calls := range s.Threads {
-		i, calls, name := i, calls, names[i]
-		sched.Go(name, func() {
-			for _, call := range calls {
-				issued[i] = append(issued[i], e.do(name, call)...)
-			}
-		})
+	var sched *vsync.Sched
+	if FreeRunning {
+		var wg sync.WaitGroup
+		for i, calls := range s.Threads {
+			i, calls, name := i, calls, names[i]
+			wg.Add(1)
+			go func() {
+				defer wg.Done()
+				for _, call := range calls {
+					issued[i] = append(issued[i], e.do(name, call)...)
+				}
+			}()
+		}
+		done := make(chan struct{})
+		go func() { wg.Wait(); close(done) }()
+		select {
+		case <-done:
+		case <-time.After(60 * time.Second):
+			return res, fmt.Errorf("free-running threads did not finish within 60s (real deadlock)")
+		}
+		sched = vsync.NewSched(nil, 1, false)
+	} else {
+		sched = vsync.NewSched(prefix, 20000, recordSites)
+		for i, calls := range s.Threads {
+			i, calls, name := i, calls, names[i]
+			sched.Go(name, func() {
+				for _, call := range calls {
+					issued[i] = append(issued[i], e.do(name, call)...)
+				}
+			})
+		}
+		vctl.SetActorFunc(vsync.CurrentThreadName)
+		res.Verdict = sched.Run()
+		vctl.SetActorFunc(nil)
 	}
-	vctl.SetActorFunc(vsync.CurrentThreadName)
-	res.Verdict = sched.Run()
-	vctl.SetActorFunc(nil)
 	vctl.SetActor("check")
 	for _, l := range issued {
 		res.Issued = append(res.Issued, l...)
